@@ -204,9 +204,32 @@ def w_fiber(ctx, rng, i):
     ctx.bin("fiber.terms", f"b2={b2 != 0},b3={b3 != 0},alpha={alpha > 0}")
 
 
+def w_two_grids(ctx, rng, i):
+    """identical DM / FIBER arguments (same samples, same D, same betas) on two sampling rates and back: the filter must follow gv.fs."""
+    n = int(rng.choice([64, 255, 256, 1001]))
+    n_pol = int(rng.integers(1, 3))
+    x = make_field(rng, n, n_pol)
+    fa, fb = (float(v) for v in rng.choice([1e10, 1.6e10, 4e10, 8e10, 1e11], 2, replace=False))
+    wmax = np.pi * max(fa, fb) * 1e-12
+    Dv = signed_log(rng, -2, 1.5) / wmax ** 2
+    L = float(10 ** rng.uniform(-1, 2))
+    b2, b3, alpha = Dv / L, signed_log(rng, -3, 0) / (L * wmax ** 3) * 10, float(rng.uniform(0, 0.5))
+    ctx.describe(n=n, n_pol=n_pol, fs_sequence=[fa, fb, fa], D=Dv, L=L, beta_2=b2, beta_3=b3, alpha=alpha)
+    outs = []
+    for fs in (fa, fb, fa):
+        with core.quiet():
+            T.gv(sps=8, fs=fs)
+            y1, H = D.DM(x, Dv, retH=True)               # dm.post / dm.retH decide
+            y2 = D.FIBER(x, L, alpha, b2, b3)            # fiber.post / fiber.loss decide
+        outs.append((y1.signal, y2.signal))
+    ctx.check("grid.history", np.array_equal(outs[0][0], outs[2][0]) and np.array_equal(outs[0][1], outs[2][1]), f"DM/FIBER result at fs={fa:.3g} differs after a visit to fs={fb:.3g}")
+    ctx.case(("grids", n, n_pol, fa, fb), sample=dict(n=n, fs_sequence=[fa, fb, fa]) if i < 2 else None)
+
+
 WORKLOADS = [
     Workload("dm", w_dm, 1000, 60000),
     Workload("fiber", w_fiber, 1000, 60000),
+    Workload("two_grids", w_two_grids, 200, 10000),
 ]
 
 
